@@ -471,13 +471,16 @@ fn run_single_program(
             // we can use CString::new().expect() safely.
             // `NAME=v cmd` overrides an exported NAME for this command (an
             // appended duplicate entry would lose against the inherited one)
+            // (in `NAME=v cmd | other` the prefix belongs to `cmd` only)
+            let no_envs = std::collections::HashMap::new();
+            let cmd_envs = if idx_cmd == 0 { &cl.envs } else { &no_envs };
             let mut c_envs: Vec<_> = env::vars()
-                .filter(|(k, _)| !cl.envs.contains_key(k))
+                .filter(|(k, _)| !cmd_envs.contains_key(k))
                 .map(|(k, v)| {
                     CString::new(format!("{}={}", k, v).as_str()).expect("CString error")
                 })
                 .collect();
-            for (key, value) in cl.envs.iter() {
+            for (key, value) in cmd_envs.iter() {
                 c_envs.push(
                     CString::new(format!("{}={}", key, value).as_str()).expect("CString error"),
                 );
